@@ -16,7 +16,7 @@ PARTIAL = []
 
 def _jobs(ctx):
     q = ctx.quick()
-    return sc.corpus_job(ctx) + [(f'mon{k}', ['monitored', 40 if q else 500]) for k in range(9 if q else 15)] + [('pop', ['adddel_ok', 40 if q else 500])]
+    return sc.corpus_job(ctx) + [(f'mon{k}', ['monitored', 40 if q else 500]) for k in range(9 if q else 15)] + [('pop', ['adddel_ok', 40 if q else 500]), ('named', ['composed', 40 if q else 500])]
 
 
 def _nt(e):
